@@ -17,8 +17,10 @@ partial def loop (h : IO.FS.Stream) (cur : Option (Nat × Nat × Nat × Memid)) 
       else if kind == "1" then osAllocAligned ps ptr size
       else osAllocAlignedAtOffset ps (ptr - (GenO._mi_align_up offset (GenO._mi_align_up align ps) - offset)) size (GenO._mi_align_up align ps) offset
     let real : Memid := { kind := mk.toNat!, base := mb.toNat!, size := ms.toNat! }
-    let ok := a.memid == real && a.ptr == ptr && a.mapped == (mapb.toNat!, maps.toNat!)
-    if !ok && d < 20 then IO.println s!"DIFF {line} || model: ptr {a.ptr} memid {a.memid.kind} {a.memid.base} {a.memid.size} mapped {a.mapped.1} {a.mapped.2}"
+    -- kind 2 also through the regenerated _mi_os_alloc_aligned_at_offset (Gen/Os.lean), the aligned allocation underneath being the recorded base
+    let okg := kind != "2" || (GenO._mi_os_alloc_aligned_at_offset 0 (fun _ _ _ _ _ => mb.toNat!) ps size align offset 1 0 0).1 == ptr
+    let ok := a.memid == real && a.ptr == ptr && a.mapped == (mapb.toNat!, maps.toNat!) && okg
+    if !ok && d < 20 then IO.println s!"DIFF {line} || generated at_offset ok: {okg}; model: ptr {a.ptr} memid {a.memid.kind} {a.memid.base} {a.memid.size} mapped {a.mapped.1} {a.mapped.2}"
     loop h (some (ps, ptr, size, real)) (n + 1) (if ok then d else d + 1)
   | "U" :: rest =>
     match cur with
@@ -32,6 +34,21 @@ partial def loop (h : IO.FS.Stream) (cur : Option (Nat × Nat × Nat × Memid)) 
       if !ok && d < 20 then IO.println s!"DIFF {line} || generated _mi_os_free_ex requests: {req}"
       loop h none (n + 1) (if ok then d else d + 1)
     | none => loop h none n d
+  | "AA" :: ps :: size :: align :: commit :: "->" :: ptr :: base :: "M" :: rest =>
+    -- translator validation of the regenerated mi_os_prim_alloc_aligned: the addresses the OS handed out are the allocation oracle
+    let maps := (rest.takeWhile (· ≠ "U")).map String.toNat!
+    let rec pairs2 : List String → List (Nat × Nat)
+      | a :: b :: r => (a.toNat!, b.toNat!) :: pairs2 r
+      | _ => []
+    let unmaps := pairs2 ((rest.dropWhile (· ≠ "U")).drop 1)
+    let a1 := maps.getD 0 0; let a2 := maps.getD 1 0
+    let r := GenO.mi_os_prim_alloc_aligned ps.toNat! (fun _ al _ _ _ _ => if al == 1 then a2 else a1) 1 size.toNat! align.toNat! commit.toNat! 0 0 0 0
+    let frees := r.2.2.map (fun c => match c with
+      | ("mi_os_prim_free", [a, sz, _]) => (a, sz)
+      | _ => (0, 0))
+    let ok := toString r.1 == ptr && toString r.2.1 == base && frees == unmaps
+    if !ok && d < 20 then IO.println s!"DIFF {line} || generated: ptr {r.1} base {r.2.1} frees {frees}"
+    loop h cur (n + 1) (if ok then d else d + 1)
   | _ => loop h cur n d
 
 def main (stdin : IO.FS.Stream) : IO UInt32 := do
